@@ -210,7 +210,14 @@ def handleRun (j : Json) : R String := do
   let T := tower lits
   let safe := eqs.all fun (_, rhs) => kindSafe exact4Std rhs
   let safeStr := if safe then "safe" else "unsafe"
-  let w0 : World (Mat Float) := ⟨u0, List.replicate n .unsolved, List.replicate n (-1)⟩
+  -- optional record left by earlier calls on the same instance (operation histories)
+  let st0 ← match optObj j "status" with
+    | some v => do parseStatus (← v.getStr?)
+    | none => pure (List.replicate n Status.unsolved)
+  let it0 ← match optObj j "iters" with
+    | some v => do (← v.getArr?).toList.mapM (·.getInt?)
+    | none => pure (List.replicate n (-1 : Int))
+  let w0 : World (Mat Float) := ⟨u0, st0, it0⟩
   let mkSpec (tol : Float) : Spec Float :=
     ⟨prog, endo.map num, check.map (fun x => names.idxOf x), n, lags, leads, tol⟩
   match kind with
